@@ -25,6 +25,22 @@
 #include <memory>
 #include <stdlib.h>
 
+#ifdef MICM_VERIF
+#  include <llvm/Support/raw_ostream.h>
+
+#  include <string>
+namespace micm::verif
+{
+  /// verification hook: when set, every generated JIT function appends the textual IR of its module here
+  /// (before the module is handed to the JIT and optimised)
+  inline std::string*& JitIrSink()
+  {
+    static std::string* sink = nullptr;
+    return sink;
+  }
+}  // namespace micm::verif
+#endif
+
 namespace micm
 {
 
@@ -211,6 +227,14 @@ namespace micm
     std::pair<llvm::orc::ResourceTrackerSP, llvm::JITTargetAddress> ret_val;
     verifyFunction(*function_);
     ret_val.first = compiler_->GetMainJITDylib().createResourceTracker();
+
+#ifdef MICM_VERIF
+    if (micm::verif::JitIrSink() != nullptr)
+    {
+      llvm::raw_string_ostream os(*micm::verif::JitIrSink());
+      module_->print(os, nullptr);
+    }
+#endif
 
     // Add the module to the JIT
     auto threadsafe_module = llvm::orc::ThreadSafeModule(std::move(module_), std::move(context_));
